@@ -1,4 +1,4 @@
-import SpecVerif.Model.C05Proto
+import SpecVerif.Model.C05OvProto
 /-!
 Line-protocol driver for the C05 (and, through `Drivers/C03.lean`, C03)
 correspondence: evaluates the very definitions of `SpecVerif.C05` the theorems
@@ -23,8 +23,13 @@ Commands:
   `rst <flags> <attr>` · `set <attr> v` · `del <attr>`
   `UPD <flags> v <kw>` · `TRA <flags> <tr> <kwt>` · `RST <flags>`
 Output: `<ret> ;; <receiver state>` with ret = `self` | `new <value>` | `err <Class>`.
+
+Overflow classes and the constructor-argument memo (`Model/C05OvProto.lean`):
+  `ovf <class> <attr>`                               the class collects extra constructor keywords in `<attr>`
+  `sig <f> builtin|object|fixed <k> n…|varkw <k> n…` · `args <f> <k> n…`   `_get_function_args` with its memo
+A class table with an `ovf` line is evaluated by `SpecVerif.C05.Ov.run`, one without by `SpecVerif.C05.run`.
 -/
 open SpecVerif.Py SpecVerif.C05
 
 def main : IO Unit := do
-  C05Driver.loop (← IO.getStdin) (← IO.getStdout) {}
+  C05Driver.loopO (← IO.getStdin) (← IO.getStdout) {}
